@@ -351,6 +351,30 @@ fn drain_casts(op: usize, out: &mut Vec<CastEv>, enabled: bool) {
     }
 }
 
+/// Apply one operation to a (possibly already consumed) muxer.
+pub fn apply_op<W: Write>(mux: &mut Option<Muxer<W>>, op: &Op, rd: bool) -> Res {
+    let Some(m) = mux.as_mut() else {
+        return Res::Skipped;
+    };
+    match op {
+        Op::WriteVideo { pts, data, key } => res_unit(guard(|| rr(rd, m.write_video(bf(*pts), data, *key)))),
+        Op::WriteVideoDts { pts, dts, data, key } => res_unit(guard(|| rr(rd, m.write_video_with_dts(bf(*pts), bf(*dts), data, *key)))),
+        Op::WriteAudio { pts, data } => res_unit(guard(|| rr(rd, m.write_audio(bf(*pts), data)))),
+        Op::EncodeVideo { data, dur_ms } => res_unit(guard(|| rr(rd, m.encode_video(data, *dur_ms)))),
+        Op::EncodeAudio { data, samples } => res_unit(guard(|| rr(rd, m.encode_audio(data, *samples)))),
+        Op::Finish(FinishKind::InPlace) => res_unit(guard(|| rr(rd, m.finish_in_place()))),
+        Op::Finish(FinishKind::InPlaceStats) => res_stats(guard(|| rr(rd, m.finish_in_place_with_stats()))),
+        Op::Finish(k) => {
+            let owned = mux.take().unwrap();
+            match k {
+                FinishKind::Finish => res_unit(guard(move || rr(rd, owned.finish()))),
+                FinishKind::FinishStats => res_stats(guard(move || rr(rd, owned.finish_with_stats()))),
+                _ => res_unit(guard(move || rr(rd, owned.flush()))),
+            }
+        }
+    }
+}
+
 /// Execute a history on a muxer writing to `w`. `set_seq` is invoked with the op index before each
 /// call (so recording sinks can stamp their events).
 pub fn run_on<W: Write>(w: W, h: &History, opts: &ExecOpts, set_seq: &dyn Fn(u32)) -> Exec {
@@ -383,35 +407,12 @@ pub fn run_on<W: Write>(w: W, h: &History, opts: &ExecOpts, set_seq: &dyn Fn(u32
         if opts.snapshots {
             ex.snaps.push(mux.as_ref().map(|m| m.verif_snapshot()));
         }
-        let Some(m) = mux.as_mut() else {
+        if mux.is_none() {
             ex.results.push(Res::Skipped);
             continue;
-        };
+        }
         set_seq(i as u32);
-        let rd = opts.render_errors;
-        let res = match op {
-            Op::WriteVideo { pts, data, key } => {
-                res_unit(guard(|| rr(rd, m.write_video(bf(*pts), data, *key))))
-            }
-            Op::WriteVideoDts { pts, dts, data, key } => {
-                res_unit(guard(|| rr(rd, m.write_video_with_dts(bf(*pts), bf(*dts), data, *key))))
-            }
-            Op::WriteAudio { pts, data } => res_unit(guard(|| rr(rd, m.write_audio(bf(*pts), data)))),
-            Op::EncodeVideo { data, dur_ms } => res_unit(guard(|| rr(rd, m.encode_video(data, *dur_ms)))),
-            Op::EncodeAudio { data, samples } => res_unit(guard(|| rr(rd, m.encode_audio(data, *samples)))),
-            Op::Finish(FinishKind::InPlace) => res_unit(guard(|| rr(rd, m.finish_in_place()))),
-            Op::Finish(FinishKind::InPlaceStats) => {
-                res_stats(guard(|| rr(rd, m.finish_in_place_with_stats())))
-            }
-            Op::Finish(k) => {
-                let owned = mux.take().unwrap();
-                match k {
-                    FinishKind::Finish => res_unit(guard(move || rr(rd, owned.finish()))),
-                    FinishKind::FinishStats => res_stats(guard(move || rr(rd, owned.finish_with_stats()))),
-                    _ => res_unit(guard(move || rr(rd, owned.flush()))),
-                }
-            }
-        };
+        let res = apply_op(&mut mux, op, opts.render_errors);
         drain_casts(i, &mut ex.casts, opts.casts);
         let panicked = res.is_panic();
         ex.results.push(res);
